@@ -19,6 +19,7 @@ A callback/guard is identified by cbid = name@prov.
 from __future__ import annotations
 
 import asyncio
+import enum
 import itertools
 import sys
 import types
@@ -35,9 +36,35 @@ HARNESS_MODULE = sys.modules[__name__]
 
 
 # ------------------------------------------------------------------------------------------ value codec
+class Color(enum.Enum):
+    """Enum whose members are used as state values ({"$e": name})."""
+
+    A = 1
+    B = 2
+    C = 3
+    D = 4
+    E = 5
+    F = 6
+    Z = 0
+
+
+class IColor(enum.IntEnum):
+    A = 1
+    B = 2
+    C = 3
+    D = 4
+    E = 5
+    F = 6
+    Z = 0
+
+
 def dec(v):
-    """JSON-able value -> python value ({"$t": [...]} is a tuple, {"$fs": [...]} a frozenset)."""
+    """JSON-able value -> python value ({"$t": [...]} tuple, {"$fs": [...]} frozenset, {"$e": n} Color member, {"$ie": n} IColor)."""
     if isinstance(v, dict):
+        if set(v) == {"$e"}:
+            return Color[v["$e"]]
+        if set(v) == {"$ie"}:
+            return IColor[v["$ie"]]
         if set(v) == {"$t"}:
             return tuple(dec(x) for x in v["$t"])
         if set(v) == {"$fs"}:
@@ -59,6 +86,9 @@ class Boom(Exception):
         super().__init__(f"{cbid}#{occ}")
         self.cbid = cbid
         self.occ = occ
+
+    def __reduce__(self):
+        return (Boom, (self.cbid, self.occ))
 
 
 class HarnessError(Exception):
@@ -254,9 +284,9 @@ class Rendered:
     def new_H(self):
         return H(self.spec)
 
-    def make(self, *, rtc=True, allow=False, Hh=None, model="default", listeners=None, late=(), **kw):
-        """Instantiate. `model`: "default" -> generated model class when the spec places callbacks on it, else
-        library default; or a user object. Returns (sm, H)."""
+    def make(self, *, rtc=True, allow=False, Hh=None, model=None, model_given=False, listeners=None, late=(), **kw):
+        """Instantiate. Without `model_given` the model is the generated model class when the spec places callbacks on it,
+        else the library default; with it, `model` is the user object (may be falsy). Returns (sm, H)."""
         Hh = Hh or self.new_H()
         objs = {}
         for prov, pcls in self.provider_classes.items():
@@ -264,7 +294,9 @@ class Rendered:
             o.H = Hh
             objs[prov] = o
         Hh.objs = objs
-        if model == "default":
+        if model_given:
+            objs["model"] = model
+        else:
             model = objs.get("model")
         ctor_listeners = [objs[p] for p in sorted(objs) if p.startswith("l") and not p.startswith("late")] if listeners is None else listeners
         kwargs = dict(rtc=rtc, allow_event_without_transition=allow, **kw)
